@@ -1690,7 +1690,17 @@ impl SignedDuration {
     /// ```
     #[inline]
     pub const fn abs(self) -> SignedDuration {
-        SignedDuration::new_unchecked(self.secs.abs(), self.nanos.abs())
+        // N.B. `i64::abs` only panics on overflow when overflow checks are
+        // enabled. Otherwise it wraps back to `i64::MIN`, which would give us
+        // a duration whose seconds and nanoseconds have different signs.
+        let secs = match self.secs.checked_abs() {
+            Some(secs) => secs,
+            None => panic!(
+                "cannot take absolute value of signed duration \
+                 with seconds equal to i64::MIN",
+            ),
+        };
+        SignedDuration::new_unchecked(secs, self.nanos.abs())
     }
 
     /// Returns the absolute value of this signed duration as a
